@@ -1,17 +1,29 @@
 #!/bin/sh
 # MANIFEST.setup_cmd: build the whole framework offline from files on disk.
+# Measured from a clean tree on 16 cores: Coq ~1 min, extraction + ocamlopt ~1 min,
+# harness (cargo, offline) ~1.5 min.
 set -e
 cd "$(dirname "$0")"
 export CARGO_NET_OFFLINE=true
 python3 translator/gen.py /repo coq/Gen
-(cd coq && coq_makefile -f _CoqProject -o Makefile && timeout 7000 make -j16)
+mkdir -p .build
+if (cd coq && coq_makefile -f _CoqProject -o Makefile >/dev/null && timeout 1500 make -j16) >.build/coq-make.log 2>&1; then
+  grep -c '^COQC' .build/coq-make.log | sed 's/^/coq files compiled: /' || true
+else
+  tail -40 .build/coq-make.log
+  echo "setup: Coq build failed"
+  exit 1
+fi
 python3 - <<'PY'
 import sys
 sys.path.insert(0, "lib")
 import vlib
 ok, out = vlib.build_model()
 print("model:", ok, out[-2000:] if not ok else "")
-for v in ("default", "nofast", "instr", "release"):
+if not ok:
+    sys.exit(1)
+# the other harness variants (nofast, instr, release) are built by the checks that use them
+for v in ("default",):
     ok, out = vlib.build_harness(v)
     print("harness", v, ok, out[-2000:] if not ok else "")
     if not ok:
